@@ -347,13 +347,21 @@ type CountingSubscriber struct {
 	Invoked  map[string]int
 	Returned map[string]int
 	Closes   int
+	// FailOnce: the first Subscribe on that topic fails (a transient broker error); Failed counts those
+	FailOnce map[string]bool
+	Failed   map[string]int
 }
 
 func NewCountingSubscriber(inner message.Subscriber) *CountingSubscriber {
-	return &CountingSubscriber{Inner: inner, Invoked: map[string]int{}, Returned: map[string]int{}}
+	return &CountingSubscriber{Inner: inner, Invoked: map[string]int{}, Returned: map[string]int{}, FailOnce: map[string]bool{}, Failed: map[string]int{}}
 }
 
 func (c *CountingSubscriber) Subscribe(ctx context.Context, topic string) (<-chan *message.Message, error) {
+	if c.FailOnce[topic] {
+		c.FailOnce[topic] = false
+		c.Failed[topic]++
+		return nil, ErrScriptedSubscribe
+	}
 	c.Invoked[topic]++
 	ch, err := c.Inner.Subscribe(ctx, topic)
 	if err == nil {
